@@ -296,6 +296,12 @@ def gen_cases(tier: str, seed: int) -> List[Dict]:
             add("text", P(shape, nterms=nt, atoms=3), save_kwargs=rng.choice(settings), saver=rng.choice(["numpoly", "numpy"]), fileobj=rng.random() < 0.3)
     add("text", P((2,), names=("q0", "q1", "q2", "q10"), nterms=3), save_kwargs={}, saver="numpoly", fileobj=False)
     add("text", P((3,), nterms=2), save_kwargs={}, saver="numpoly", fileobj=True)
+    # exponents whose key character is white space of some kind (74 = U+0085, 101 = U+00A0, 5701 = U+1680, 8173/4 = U+2028/9,
+    # 12229 = U+3000), a backslash (33) or a brace (64, 66): the header is one line of such characters
+    for e in (74, 101, 33, 64, 66, 5701, 8133, 8173, 8174, 8180, 12229):
+        sp = S.make_poly_spec("a", ("q0", "q1"), [[e, 0], [0, 1], [1, e]], (2,), rng, 2, zero_prob=0.0, literal_prob=0.3, mode="raw")
+        sp.pop("pre", None)
+        add("text", sp, save_kwargs={}, saver=rng.choice(["numpoly", "numpy"]), fileobj=e % 2 == 0)
     # exact integer format: coefficients beyond 2**53 must come back exactly (native runs; literals, no atoms)
     big = {"kind": "poly", "names": ["q0", "q1"], "exps": [[0, 0], [1, 1]], "shape": [2], "slots": [[9007199254740993, 3], [-(2 ** 62 + 5), 1]], "mode": "raw"}
     add("text", big, save_kwargs={}, saver="numpoly", fileobj=False, fmt="%d", load_dtype="int")
